@@ -108,7 +108,7 @@ fn run_case(case: &Case) -> (Ledger, scenario::Outcome) {
         let l1 = l1.clone();
         let l2 = l2.clone();
         net.with(|n| {
-            n.keep_log = false;
+            n.keep_log = std::env::var("L2_KEEP_LOG").is_ok();
             n.on_deliver = Some(Box::new(move |ev| {
                 if ev.dst == sa && ev.src == ca {
                     let mut g = l1.lock().unwrap();
@@ -190,6 +190,11 @@ pub fn run(args: &Args, rep: &mut Report) {
         let (l, out) = run_case(&case);
         rep.evaluations += 1;
         judge(rep, &case, &l, &out);
+        if args.flag("dump") {
+            for e in out.net.with(|n| n.sent.clone()) {
+                eprintln!("{:>6} ms {} -> {} len {} ord {} kinds {} fate {:?}", e.t.as_millis(), e.src, e.dst, e.len, e.ordinal, e.kinds, e.fate);
+            }
+        }
         return;
     }
     let thorough = args.get("tier") == Some("thorough");
